@@ -28,22 +28,9 @@ Definition m_tags (e : env) : bytes -> option tagset := assoc_opt (e_tags e).
 Definition m_time (e : env) : bytes -> option Z := assoc_opt (e_times e).
 Definition m_size (e : env) : bytes -> option N := assoc_opt (e_sizes e).
 
-Definition parse_lql_text (e : env) (text : bytes) : option lql :=
-  match tokenize go_unquote text with
-  | Some ts => parse_lql_tokens (m_tags e) (m_time e) (m_size e) ts
-  | None => None
-  end.
-(* ParseExpr / ParseSource: the empty text is "nothing" (outer None = error) *)
-Definition parse_expr_text (text : bytes) : option (option expr) :=
-  match text with
-  | [] => Some None
-  | _ => match tokenize go_unquote text with Some ts => option_map Some (parse_expr_tokens ts) | None => None end
-  end.
-Definition parse_source_text (e : env) (text : bytes) : option (option source) :=
-  match text with
-  | [] => Some None
-  | _ => match tokenize go_unquote text with Some ts => option_map Some (parse_source_tokens (m_tags e) ts) | None => None end
-  end.
+Definition parse_lql_text (e : env) : bytes -> option lql := LqlParse.parse_lql_text go_unquote (m_tags e) (m_time e) (m_size e).
+Definition parse_expr_text : bytes -> option (option expr) := LqlParse.parse_expr_text go_unquote.
+Definition parse_source_text (e : env) : bytes -> option (option source) := LqlParse.parse_source_text go_unquote (m_tags e).
 
 Definition print_lql (e : env) (l : lql) : bytes := pr_lql (m_quote e) (m_line e) (m_fmt e) l.
 Definition print_expr (e : env) (x : expr) : bytes := pr_expr (m_quote e) x.
@@ -63,6 +50,8 @@ Inductive case :=
 | KExpr (text : bytes) (e : env) (obs : eobs)
 | KSource (text : bytes) (e : env) (obs : srobs)
 | KQuote (s q : bytes)
+| KUnq (raw : bytes) (res : option bytes)
+| KInt (text : bytes) (parsed : option Z) (printed_from : option Z)
 | KPipe (text : bytes) (e : env) (tagsets : list tagset) (events : list ev3) (obs : pobs).
 
 Definition wres_eqb (a b : wres) : bool :=
@@ -72,11 +61,22 @@ Definition res_of (o : outcome bool) : wres :=
 
 Definition toks_eqb : list token -> list token -> bool := list_eqb token_eqb.
 
+(* the token image of the statement printers (what the round-trip theorem is stated on) is what the real
+   lexer makes of the real printed text; not compared when the text has a `{` and two `}` (the greedy Tags
+   class then spans more than the tag set: a recorded finding) *)
+Definition count_byte (n : N) (s : bytes) : nat := List.length (filter (is_byte n) s).
+Definition image_ok (e : env) (a : lql) (p : bytes) : bool :=
+  if Nat.ltb 0 (count_byte 123 p) && Nat.ltb 1 (count_byte 125 p) then true
+  else match tokenize go_unquote p with
+       | Some ts => toks_eqb ts (tk_lql (m_line e) (m_fmt e) (m_quote e) a)
+       | None => false
+       end.
+
 Definition check_stmt (text : bytes) (e : env) (obs : sobs) : bool :=
   match parse_lql_text e text, obs with
   | None, SErr => true
   | Some a, SOk a' p re =>
-      lql_eqb a a' && bytes_eqb (print_lql e a) p && option_eqb lql_eqb (parse_lql_text e p) re
+      lql_eqb a a' && bytes_eqb (print_lql e a) p && option_eqb lql_eqb (parse_lql_text e p) re && image_ok e a p
   | _, _ => false
   end.
 
@@ -115,8 +115,7 @@ Definition check_quote (s q : bytes) : bool :=
 Definition check_pipe (text : bytes) (e : env) (tagsets : list tagset) (events : list ev3) (obs : pobs) : bool :=
   match parse_lql_text e text with
   | Some (LCreate (Some p)) =>
-      let tc := match pi_from p with Some s => print_source e s | None => [] end in
-      let fc := match pi_where p with Some x => print_expr e x | None => [] end in
+      let '(tc, fc) := pipe_conds_text (m_quote e) (m_line e) p in
       let src :=
         match parse_source_text e tc with
         | Some s =>
@@ -150,6 +149,11 @@ Definition check (c : case) : bool :=
   | KExpr text e obs => check_expr text e obs
   | KSource text e obs => check_source text e obs
   | KQuote s q => check_quote s q
+  | KUnq raw res => option_eqb bytes_eqb (go_unquote raw) res
+  (* strconv.ParseInt(text, 0, 64) = parsed; and, if given, text = fmt.Sprintf(%d, z) *)
+  | KInt text parsed z =>
+      option_eqb Z.eqb (parse_int text) parsed &&
+      match z with Some z => bytes_eqb (pr_Z z) text | None => true end
   | KPipe text e tagsets events obs => check_pipe text e tagsets events obs
   end.
 
